@@ -18,7 +18,7 @@ type replayResult struct {
 	log    string
 }
 
-var modelRe = regexp.MustCompile(`\(define-fun \|?(p_[A-Za-z0-9_]+)![0-9]+\|? \(\) (\(_ BitVec [0-9]+\)|Int|Bool)\s+([^\n]+)\)`)
+var modelRe = regexp.MustCompile(`\(define-fun \|?(p_[A-Za-z0-9_.]+)![0-9]+\|? \(\) (\(_ BitVec [0-9]+\)|Int|Bool)\s+([^\n]+)\)`)
 
 // parseModel extracts parameter values from a solver model.
 func parseModel(out string) map[string]string {
@@ -111,20 +111,40 @@ func (cr *checkRun) replaySource(fc *FnCtx, model map[string]string) (string, bo
 	fn := fc.fn
 	c := fc.c
 	sig := fn.Signature
-	type par struct{ name, typ string }
+	// a leaf is one scalar input: a scalar parameter, or one scalar field of a parameter
+	// whose type is a struct of scalars declared in the package (e.g. par2.ShardCounts)
+	type par struct{ name, typ, target, model, strct string }
 	var ps []par
+	var tops []string
 	for _, p := range fn.Params {
-		gt, ok := scalarGoType(p.Type())
-		if !ok {
-			return "", false
-		}
 		name := p.Name()
 		if name == "" || name == "_" {
 			return "", false
 		}
-		ps = append(ps, par{name, gt})
+		tops = append(tops, name)
+		if gt, ok := scalarGoType(p.Type()); ok {
+			ps = append(ps, par{name: name, typ: gt, model: name})
+			continue
+		}
+		st, isStruct := p.Type().Underlying().(*types.Struct)
+		nt, isNamed := p.Type().(*types.Named)
+		if !isStruct || !isNamed || nt.Obj().Pkg() != fn.Pkg.Pkg || st.NumFields() == 0 {
+			return "", false
+		}
+		for i := 0; i < st.NumFields(); i++ {
+			f := st.Field(i)
+			gt, ok := scalarGoType(f.Type())
+			if !ok || f.Name() == "_" {
+				return "", false
+			}
+			strct := ""
+			if i == 0 {
+				strct = nt.Obj().Name()
+			}
+			ps = append(ps, par{name: name + "_" + f.Name(), typ: gt, target: name + "." + f.Name(), model: fmt.Sprintf("%s.%d", name, i), strct: strct})
+		}
 	}
-	if len(ps) == 0 || len(ps) > 4 {
+	if len(ps) == 0 || len(ps) > 5 {
 		return "", false
 	}
 	var resNames []string
@@ -164,7 +184,7 @@ func (cr *checkRun) replaySource(fc *FnCtx, model map[string]string) (string, bo
 			continue
 		}
 		fmt.Fprintf(&sb, "\tvals_%s := gocvVals(%d, rng)\n", p.name, bitsOf(p.typ))
-		if v, ok := model[p.name]; ok && v != "true" && v != "false" {
+		if v, ok := model[p.model]; ok && v != "true" && v != "false" {
 			if strings.HasPrefix(v, "-") {
 				fmt.Fprintf(&sb, "\tvals_%s = append([]uint64{uint64(int64(%s))}, vals_%s...)\n", p.name, v, p.name)
 			} else {
@@ -172,20 +192,29 @@ func (cr *checkRun) replaySource(fc *FnCtx, model map[string]string) (string, bo
 			}
 		}
 	}
-	capN := map[int]int{1: 1000000, 2: 1400, 3: 120, 4: 36}[len(ps)]
+	capN := map[int]int{1: 1000000, 2: 1400, 3: 120, 4: 36, 5: 14}[len(ps)]
 	for _, p := range ps {
 		fmt.Fprintf(&sb, "\tif len(vals_%s) > %d { vals_%s = vals_%s[:%d] }\n", p.name, capN, p.name, p.name, capN)
 	}
 	indent := "\t"
 	for _, p := range ps {
+		if p.strct != "" {
+			fmt.Fprintf(&sb, "%svar %s %s\n", indent, strings.SplitN(p.target, ".", 2)[0], p.strct)
+		}
 		fmt.Fprintf(&sb, "%sfor _, raw_%s := range vals_%s {\n", indent, p.name, p.name)
 		indent += "\t"
-		if p.typ == "bool" {
-			fmt.Fprintf(&sb, "%s%s := raw_%s != 0\n", indent, p.name, p.name)
-		} else {
-			fmt.Fprintf(&sb, "%s%s := %s(raw_%s)\n", indent, p.name, p.typ, p.name)
+		lhs := p.name + " :="
+		if p.target != "" {
+			lhs = p.target + " ="
 		}
-		fmt.Fprintf(&sb, "%s%s_old := %s\n%s_, _ = %s, %s_old\n", indent, p.name, p.name, indent, p.name, p.name)
+		if p.typ == "bool" {
+			fmt.Fprintf(&sb, "%s%s raw_%s != 0\n", indent, lhs, p.name)
+		} else {
+			fmt.Fprintf(&sb, "%s%s %s(raw_%s)\n", indent, lhs, p.typ, p.name)
+		}
+	}
+	for _, n := range tops {
+		fmt.Fprintf(&sb, "%s%s_old := %s\n%s_, _ = %s, %s_old\n", indent, n, n, indent, n, n)
 	}
 	// requires
 	for _, r := range c.Requires {
@@ -205,17 +234,15 @@ func (cr *checkRun) replaySource(fc *FnCtx, model map[string]string) (string, bo
 	call := ""
 	if sig.Recv() != nil {
 		start = 1
-		call = fmt.Sprintf("%s.%s", ps[0].name, fn.Name())
+		call = fmt.Sprintf("%s.%s", tops[0], fn.Name())
 	} else {
 		call = fn.Name()
 	}
-	for _, p := range ps[start:] {
-		argNames = append(argNames, p.name)
-	}
+	argNames = append(argNames, tops[start:]...)
 	var fmts, fargs []string
-	for _, p := range ps {
-		fmts = append(fmts, p.name+"=%v")
-		fargs = append(fargs, p.name)
+	for _, n := range tops {
+		fmts = append(fmts, n+"=%+v")
+		fargs = append(fargs, n)
 	}
 	desc := fmt.Sprintf("fmt.Sprintf(\"%s\", %s)", strings.Join(fmts, " "), strings.Join(fargs, ", "))
 	panicsAllowed := "false"
